@@ -181,3 +181,118 @@ func VPH_keyPrefix() {
 
 // VP_KeyMatch exposes the real key/prefix matcher to harnesses of other packages.
 func VP_KeyMatch(key, prefix string) (bool, string) { return configKeyMatchesPrefix(key, prefix) }
+
+// H-configdefaults (C14): sizer.* settings are read with git's own typing, so
+// every spelling git accepts for a boolean or an integer has the effect of the
+// corresponding option. git's side is modelled: `git config --get --bool`
+// prints the canonical true/false, `--get --int` the canonical decimal (with
+// k/m/g suffixes expanded), plain `--get` the raw value; exit status 1 = unset.
+func vpGitConfigModel(raw string, unset bool, valueless bool) {
+	var last []string
+	vp_Stub("(*github.com/github/git-sizer/git.Repository).GitCommand", func(r *Repository, args ...string) *exec.Cmd {
+		last = args
+		return &exec.Cmd{}
+	})
+	vp_Stub("(*os/exec.Cmd).Output", func(c *exec.Cmd) ([]byte, error) {
+		if len(last) < 3 || last[0] != "config" || last[1] != "--get" {
+			vp_Inconclusive("a git config command with no modelled answer: " + strings.Join(last, " "))
+		}
+		if unset {
+			vp_ExitCode(1)
+			return nil, &exec.ExitError{ProcessState: &os.ProcessState{}}
+		}
+		typ := ""
+		if len(last) == 4 {
+			typ = last[2]
+		}
+		switch typ {
+		case "--bool", "--type=bool":
+			if valueless {
+				return []byte("true\n"), nil
+			}
+			switch strings.ToLower(raw) {
+			case "true", "yes", "on", "1":
+				return []byte("true\n"), nil
+			case "false", "no", "off", "0", "":
+				return []byte("false\n"), nil
+			}
+			vp_ExitCode(128)
+			return nil, &exec.ExitError{ProcessState: &os.ProcessState{}}
+		case "--int", "--type=int":
+			switch raw {
+			case "2", "1", "3":
+				return []byte(raw + "\n"), nil
+			case "1k":
+				return []byte("1024\n"), nil
+			}
+			vp_ExitCode(128)
+			return nil, &exec.ExitError{ProcessState: &os.ProcessState{}}
+		case "":
+			return []byte(raw + "\n"), nil
+		}
+		vp_Inconclusive("a git config type option with no modelled answer: " + typ)
+		return nil, nil
+	})
+}
+
+func VPH_configDefaults() {
+	if vp_Native() {
+		vp_Reach("end")
+		return
+	}
+	repo := &Repository{gitDir: ".", gitBin: "git"}
+	switch vp_Choice("kind", 3) {
+	case 0: // booleans
+		spell := []string{"true", "yes", "on", "1", "Yes", "ON", "false", "no", "off", "0", "No"}
+		i := vp_Choice("spelling", len(spell)+2)
+		unset, valueless := i == len(spell), i == len(spell)+1
+		raw := ""
+		if i < len(spell) {
+			raw = spell[i]
+		}
+		vpGitConfigModel(raw, unset, valueless)
+		def := vp_Choice("default", 2) == 1
+		got, err := repo.ConfigBoolDefault("sizer.progress", def)
+		vp_Assert(err == nil, "every boolean spelling git accepts is accepted")
+		want := def
+		if !unset {
+			want = valueless || i < 6
+		}
+		vp_Assert(got == want, "a boolean setting has git's meaning (yes/on/1/valueless = true, no/off/0 = false, unset = default)")
+		vp_Reach("bool")
+	case 1: // integers
+		raws := []string{"1", "2", "3", "1k"}
+		i := vp_Choice("value", len(raws)+1)
+		unset := i == len(raws)
+		raw := ""
+		if !unset {
+			raw = raws[i]
+		}
+		vpGitConfigModel(raw, unset, false)
+		got, err := repo.ConfigIntDefault("sizer.jsonVersion", 7)
+		vp_Assert(err == nil, "every integer spelling git accepts is accepted")
+		want := 7
+		if !unset {
+			want = []int{1, 2, 3, 1024}[i]
+		}
+		vp_Assert(got == want, "an integer setting has git's meaning (suffixes expanded, unset = default)")
+		vp_Reach("int")
+	case 2: // strings
+		raws := []string{"hash", "0.5", "", " spaced "}
+		i := vp_Choice("value", len(raws)+1)
+		unset := i == len(raws)
+		raw := ""
+		if !unset {
+			raw = raws[i]
+		}
+		vpGitConfigModel(raw, unset, false)
+		got, err := repo.ConfigStringDefault("sizer.names", "dflt")
+		vp_Assert(err == nil, "string settings are read")
+		want := "dflt"
+		if !unset {
+			want = raw
+		}
+		vp_Assert(got == want, "a string setting is returned exactly (only git's trailing LF removed), unset = default")
+		vp_Reach("string")
+	}
+}
